@@ -95,8 +95,19 @@ def run_job(job, work, tier, cache_dir, versions):
     d = os.path.join(work, job['id'])
     os.makedirs(d, exist_ok=True)
     tag = job['id']
-    cmd = [sys.executable, os.path.join(VERIF, 'tools', 'extract.py'), '--src', job['src'], '--out', d, '--tag', tag]
-    for r in job['roots']:
+    if job.get('c_source'):
+        # a C translation unit of the repository (here: the flex output with the scanner glue) is verified AS IT IS: the
+        # contract file #includes it (C_SOURCE); nothing is rendered, nothing is dropped
+        srcp = os.path.join('/repo', job['src'])
+        nlines = sum(1 for _ in open(srcp, errors='replace'))
+        json.dump(dict(rendered={job['enforce']: dict(lines=nlines, has_loops=True)}, compile_cmd='none: %s is C and is included unchanged by contracts/%s' % (job['src'], job['contract'])),
+                  open(os.path.join(d, tag + '.meta.json'), 'w'))
+        open(os.path.join(d, tag + '.types.h'), 'w').write('/* C source included as is */\n')
+        open(os.path.join(d, tag + '.fns.c'), 'w').write('#include "%s"\n' % srcp)
+        cmd = ['true']
+    else:
+        cmd = [sys.executable, os.path.join(VERIF, 'tools', 'extract.py'), '--src', job['src'], '--out', d, '--tag', tag]
+    for r in (job['roots'] if not job.get('c_source') else []):
         cmd += ['--root', r]
     for c in job['cut']:
         cmd += ['--cut', c]
